@@ -96,7 +96,10 @@ def targeted_cases(rng):
             [("l", P("list"), "v", "", 0, [("m", ("b", ADD, x("b63"), x("v"))), ("t", ",")])],
             [("i", ("b", GT, x("n1"), ("n", 0)), [("m", ("b", MUL, x("b63"), ("n", 1))), ("t", "!")], [("m", ("b", ADD, x("big"), ("n", 0)))])],
             [("f", ("b", EQ, x("big"), x("big")), [("m", ("b", ADD, ("b", MUL, ("n", 4611686018427387904), ("n", 3)), ("n", 5)))], [(None, [("t", "ne")])])],
-            # (comparisons < > <= >= and truth tests on naturals >= 2^63 are D90: added once the repair is in /repo)
+            # comparisons and truth tests on naturals >= 2^63 (D90)
+            [("i", ("b", GT, x("big"), ("n", 1)), [("t", "gt")], [("t", "no")]), ("i", ("b", LT, ("n", 1), x("b63")), [("t", "lt")], [("t", "no")]),
+             ("m", ("b", GT, x("b63"), x("n1"))), ("m", ("b", LT, x("b63"), x("big"))), ("i", x("big"), [("t", "T")], [("t", "F")])],
+            [("l", P("list"), "v", "", 0, [("f", ("b", GT, x("big"), x("v")), [("t", "g")], [(None, [("t", "l")])])])],
         ]
         for ast in asts:
             out.append(Case(rng.choice([0, 0, 1, 2, 3]), ast, root, 0))
